@@ -199,6 +199,8 @@ func (p *Program) topLevel(fn *ssa.Function) bool {
 
 func (p *Program) prove(pr *Prover, re *regexp.Regexp, prop string, verbose bool) *ProveResult {
 	res := &ProveResult{Inlined: map[string]int{}, ByBackend: map[string]int{}}
+	okNotes, bad := p.checkInstantiatedParams()
+	res.Errors = append(res.Errors, bad...)
 	var jobs []func() *Verdict
 	var canaries []func() *Verdict
 	ext := map[string]bool{}
@@ -447,7 +449,7 @@ func (p *Program) prove(pr *Prover, re *regexp.Regexp, prop string, verbose bool
 	for k := range assum {
 		res.Assumptions = append(res.Assumptions, k)
 	}
-	sort.Strings(res.Assumptions)
+	res.Assumptions = append(res.Assumptions, okNotes...)
 	sort.Strings(res.Assumptions)
 	return res
 }
@@ -942,4 +944,98 @@ func (p *Program) oblFor(o *Oblig, fn *ssa.Function, prop string) bool {
 		}
 	}
 	return false
+}
+
+// checkInstantiatedParams: an 'assume' at a call site that equates an uninterpreted spec function f with a predicate of the
+// local state (Satisfies: m(t) <==> covered(t, allowedNodes)) is the instantiation of a contract proved for an ARBITRARY f.
+// That step is sound only if nothing else constrains f: f must occur in no requires / typeinv, in no other assume, and only
+// in axioms that are elimination rules of ANOTHER opaque function (every trigger contains an uninterpreted spec function
+// other than f: the axiom defines that function in terms of f, for whatever f is).  Checked mechanically on every run.
+func (p *Program) checkInstantiatedParams() (notes []string, bad []string) {
+	isParam := func(sym string) bool {
+		f, ok := p.cs.SpecFns[sym]
+		return ok && f.Body == nil && f.SMT == ""
+	}
+	type site struct{ fn, src string }
+	params := map[string][]site{}
+	for _, name := range p.cs.funcNames() {
+		c := p.cs.Funcs[name]
+		for _, ca := range c.CallAsserts {
+			if !ca.Assume {
+				continue
+			}
+			q, ok := ca.Clause.E.(*EQuant)
+			if !ok || len(q.Triggers) == 0 {
+				continue
+			}
+			// the instantiated function is the head of the trigger
+			for _, trig := range q.Triggers {
+				for _, te := range trig {
+					if call, ok := te.(*ECall); ok && isParam(call.Fn) {
+						params[call.Fn] = append(params[call.Fn], site{name, ca.Clause.Src})
+					}
+				}
+			}
+		}
+	}
+	var names []string
+	for f := range params {
+		names = append(names, f)
+	}
+	sort.Strings(names)
+	for _, f := range names {
+		uses := func(e Expr) bool { return containsStr(axiomSymbols(e), f) }
+		ok := true
+		if len(params[f]) != 1 {
+			bad = append(bad, fmt.Sprintf("contracts: %s is instantiated by %d assume clauses (at most one is sound)", f, len(params[f])))
+			ok = false
+		}
+		for _, name := range p.cs.funcNames() {
+			c := p.cs.Funcs[name]
+			for _, cl := range c.Requires {
+				if uses(cl.E) {
+					bad = append(bad, fmt.Sprintf("contracts: %s:%d: a requires clause of %s constrains the instantiated spec function %s", cl.File, cl.Line, name, f))
+					ok = false
+				}
+			}
+		}
+		for _, ti := range p.cs.TypeInvs {
+			if uses(ti.Clause.E) {
+				bad = append(bad, fmt.Sprintf("contracts: %s:%d: a type invariant constrains the instantiated spec function %s", ti.Clause.File, ti.Clause.Line, f))
+				ok = false
+			}
+		}
+		nAx := 0
+		for _, ax := range p.cs.Axioms {
+			if ax.Kind != "axiom" || !uses(ax.E) {
+				continue
+			}
+			nAx++
+			q, isQ := ax.E.(*EQuant)
+			good := isQ && len(q.Triggers) > 0
+			if good {
+				for _, trig := range q.Triggers {
+					other := false
+					for _, te := range trig {
+						for _, sym := range axiomSymbols(te) {
+							if sym != f && isParam(sym) {
+								other = true
+							}
+						}
+					}
+					if !other {
+						good = false
+					}
+				}
+			}
+			if !good {
+				bad = append(bad, fmt.Sprintf("contracts: %s:%d: an axiom constrains the instantiated spec function %s (it is not an elimination rule of another opaque function)", ax.File, ax.Line, f))
+				ok = false
+			}
+		}
+		if ok {
+			notes = append(notes, fmt.Sprintf("instantiation of the uninterpreted %s at %s (%s): checked mechanically that %s occurs in no requires, type invariant or second assume, and only in %d axioms that are elimination rules of other opaque functions", f, params[f][0].fn, params[f][0].src, f, nAx))
+		}
+	}
+	return notes, bad
 }
